@@ -235,7 +235,10 @@ static void death_publish(int reason, int signo, uintptr_t addr) {
 static void on_sanitizer_death(void) { death_publish(1, 0, 0); }
 static void on_signal(int sig, siginfo_t *si, void *ctx) {
     (void) ctx;
-    death_publish(sig == SIGVTALRM ? 3 : 2, sig, si ? (uintptr_t) si->si_addr : 0);
+    uintptr_t fa = si ? (uintptr_t) si->si_addr : 0; int reason = sig == SIGVTALRM ? 3 : 2;
+    if (sig == SIGSEGV) for (int i = 0; i < hx_prot_n; i++) if (fa >= hx_prot_lo[i] && fa < hx_prot_hi[i]) reason = 4 + i;   /* write to protected shared memory */
+    hx_shared_disable();
+    death_publish(reason, sig, fa);
     _exit(sig == SIGVTALRM ? 71 : 70);
 }
 static void watchdog_arm(void) {
@@ -352,7 +355,9 @@ int hx_supervise(int argc, char **argv, hx_worker_fn fn) {
         crash_signature(err, sig, sizeof sig, msg, sizeof msg);
         if (sh->note[0] && sig[0]) { strncat(sig, "|", sizeof sig - strlen(sig) - 1); strncat(sig, (const char *) sh->note, sizeof sig - strlen(sig) - 1);
                                      strncat(msg, " [", sizeof msg - strlen(msg) - 1); strncat(msg, (const char *) sh->note, sizeof msg - strlen(msg) - 1); strncat(msg, "]", sizeof msg - strlen(msg) - 1); }
-        const char *kind = "crash";
+        const char *kind = "crash"; const char *vprop = "C01";
+        if (sh->reason >= 4) { kind = "shared_write"; vprop = "C19"; snprintf(sig, sizeof sig, "shared_write:%s", sh->reason == 4 ? "cfg_arena" : "libhtp_data_bss");
+            snprintf(msg, sizeof msg, "a parser execution wrote to memory shared between parsers (%s, address %#lx)", sh->reason == 4 ? "configuration / hook lists" : "libhtp .data/.bss", (unsigned long) sh->fault_addr); }
         if (sh->reason == 3) { kind = "hang"; snprintf(sig, sizeof sig, "hang"); snprintf(msg, sizeof msg, "execution exceeded the %d s CPU watchdog", watchdog_secs); }
         else if (!sig[0]) {
             int signo = sh->crashed ? sh->signo : (WIFSIGNALED(st) ? WTERMSIG(st) : 0);
@@ -364,7 +369,7 @@ int hx_supervise(int argc, char **argv, hx_worker_fn fn) {
         size_t tl = sh->text_len < SH_TEXT ? sh->text_len : SH_TEXT - 1;
         memcpy(replay, sh->text, tl); replay[tl] = 0;
         hx_buf rec = { 0 };
-        hb_puts(&rec, "{\"t\":\"viol\",\"prop\":\"C01\",\"kind\":"); js(&rec, kind); hb_puts(&rec, ",\"sig\":"); js(&rec, sig);
+        hb_puts(&rec, "{\"t\":\"viol\",\"prop\":"); js(&rec, vprop); hb_puts(&rec, ",\"kind\":"); js(&rec, kind); hb_puts(&rec, ",\"sig\":"); js(&rec, sig);
         hb_puts(&rec, ",\"msg\":"); js(&rec, msg); hb_puts(&rec, ",\"replay\":"); js(&rec, tl ? replay : "(no script in flight)\n");
         hb_printf(&rec, ",\"exec\":%llu}\n", (unsigned long long) sh->exec_counter);
         fwrite(rec.p, 1, rec.n, stdout); fflush(stdout); hb_free(&rec);
